@@ -642,7 +642,7 @@ func (w *rsWorld) act(a RSAct, base int64, where string) (effect bool) {
 		if before.blk == nil && after.blk != nil {
 			effect = true
 			w.served[bh] = sender
-			if sender != before.peer {
+			if sender != after.peer {
 				w.label("pool-took-block-from-peer-not-asked")
 			}
 		}
